@@ -142,24 +142,24 @@ Section Sim.
       destruct rA; cbn [omap obind]; done.
     Qed.
 
-    Lemma bind_value_sim : forall sA sB fr x v, sinv sA sB ->
-      simG ren (bind_value (sA, fr) x v) (bind_value (sB, renFr fr) x (ren v)).
+    Lemma bind_value_sim : forall sA0 sB0 sA sB fr x v, sinv sA0 sB0 -> sinv sA sB ->
+      simG ren (bind_value (length sA0) (sA, fr) x v) (bind_value (length sB0) (sB, renFr fr) x (ren v)).
     Proof.
-      intros sA sB fr x v Hs. unfold bind_value. cbn [fst snd]. rewrite insert_head_ren.
+      intros sA0 sB0 sA sB fr x v H0 Hs. unfold bind_value. cbn [fst snd]. rewrite insert_head_ren.
       destruct (insert_head fr x v); cbn [option_map];
-        (split; [reflexivity|split; [reflexivity|apply sinv_name_if_lambda; assumption]]).
+        (split; [reflexivity|split; [reflexivity|apply sinv_name_if_created; assumption]]).
     Qed.
     Lemma assign_value_sim : forall ve, simR ve -> forall sA sB fr x, sinv sA sB ->
       simG ren (assign_value evA (sA, fr) x ve) (assign_value evB (sB, renFr fr) x ve).
     Proof.
-      intros ve Hv sA sB fr x Hs. unfold assign_value.
+      intros ve Hv sA sB fr x Hs. unfold assign_value. cbn [fst].
       pose proof (Hv sA sB fr Hs) as H1. step H1.
       destruct rA; cbn [omap obind]; try done. apply bind_value_sim; assumption.
     Qed.
     Lemma assign_checked_sim : forall ve, simR ve -> forall sA sB fr x, sinv sA sB ->
       simG ren (assign_checked evA (sA, fr) x ve) (assign_checked evB (sB, renFr fr) x ve).
     Proof.
-      intros ve Hv sA sB fr x Hs. unfold assign_checked.
+      intros ve Hv sA sB fr x Hs. unfold assign_checked. cbn [fst].
       pose proof (Hv sA sB fr Hs) as H1. step H1.
       destruct rA; cbn [omap obind]; try done. cbn [snd]. rewrite contains_ren.
       destruct (contains frA x); [done|]. apply bind_value_sim; assumption.
